@@ -1,6 +1,7 @@
 package gbnprop
 
 import (
+	"os"
 	"encoding/json"
 	"fmt"
 	"strings"
@@ -172,7 +173,11 @@ func scenarioReplay(t *testing.T, rec *stats.Recorder, unit string, times int,
 		return false
 	}
 	for i := 0; i < times; i++ {
-		if v, tail := fn(&sc); v != "" {
+		v, tail := fn(&sc)
+		if debugTrace && i == 0 {
+			t.Logf("trace tail:\n%s", strings.Join(tail, "\n"))
+		}
+		if v != "" {
 			rec.Violation(v, "scenario", withTrace(&sc, tail))
 			t.Fatalf("replay run %d: %s\n%s", i, v, strings.Join(tail, "\n"))
 		}
@@ -194,6 +199,8 @@ func scKey(sc *vnet.Scenario) []byte {
 	b, _ := json.Marshal(sc)
 	return b
 }
+
+var debugTrace = os.Getenv("VERIF_DEBUG") != ""
 
 const bubbleWatchdog = 120 * time.Second
 
